@@ -180,7 +180,9 @@ def direct_predicates(rng, nb, n):
     for it in range(n):
         d = int(rng.integers(2, 7))
         npr = int(rng.integers(1, d + 1))
-        per = np.sort(rng.permutation(d)[:npr])
+        per = rng.permutation(d)[:npr]
+        if it % 5 < 3:
+            per = np.sort(per)       # the caller may list the periodic dimensions in any order
         npts = int(rng.integers(2, 60))
         pts = rng.random((npts, d))
         mode = it % 4
